@@ -3558,7 +3558,7 @@ func (a *Association) handleForwardTSN(chunkTSN *chunkForwardTSN) []*packet {
 
 	a.log.Tracef("[%s] should send ack? newCumTSN=%d peerLastTSN=%d",
 		a.name, chunkTSN.newCumulativeTSN, a.peerLastTSN())
-	if sna32LTE(chunkTSN.newCumulativeTSN, a.peerLastTSN()) {
+	if !sna32LT(a.peerLastTSN(), chunkTSN.newCumulativeTSN) {
 		a.log.Tracef("[%s] sending ack on Forward TSN", a.name)
 		a.ackState = ackStateImmediate
 		a.ackTimer.stop()
@@ -3619,7 +3619,7 @@ func (a *Association) handleIForwardTSN(chunkTSN *chunkIForwardTSN) []*packet {
 
 	a.log.Tracef("[%s] should send ack? newCumTSN=%d peerLastTSN=%d",
 		a.name, chunkTSN.newCumulativeTSN, a.peerLastTSN())
-	if sna32LTE(chunkTSN.newCumulativeTSN, a.peerLastTSN()) {
+	if !sna32LT(a.peerLastTSN(), chunkTSN.newCumulativeTSN) {
 		a.log.Tracef("[%s] sending ack on I-Forward TSN", a.name)
 		a.ackState = ackStateImmediate
 		a.ackTimer.stop()
